@@ -88,11 +88,16 @@ def check(ctx, rep):
         T = Terms(g)
         rts = ret_terms(T, [0])
         ok = False
-        if len(rts) == 1:
-            r = list(rts)[0]
-            if term_callee_is(r, 'core::option::Option::ok_or') and term_callee_is(r[2][0], 'cadence_macros::state::SingletonHolder::get'):
-                a = peel(r[2][0][2][0])
-                ok = a[0] == 'static' or (a[0] == 'const' and 'HOLDER' in str(a))
+        gets = [bi for bi, t in g.calls() if callee_is(t, 'cadence_macros::state::SingletonHolder::get') and not g.blocks[bi]['cleanup']]
+        if len(gets) == 1:
+            gct = norm(T.call_term(gets[0]))
+            a = peel(gct[2][0])
+            is_holder = a[0] == 'static' or (a[0] == 'const' and 'HOLDER' in str(a))
+            rc = result_cases(T, gets[0])
+            from ..terms import field_of as _fo
+            want_ok = ('adt', 'core::result::Result', 'Ok', (('0', _fo(('payload', gct, 'Some'), '0', 0)),))
+            ok = is_holder and not rc['?'] and rc['ok'] == {want_ok} and bool(rc['err']) and \
+                all(r[0] == 'adt' and r[2] == 'Err' and any(y[0] == 'adt' and y[2] == 'GlobalDefaultNotSet' for y in walk(r)) for r in rc['err'])
         rep.ob('W2', 'get_global_default-is-holder-get', ok, g.where(), 'get_global_default() = HOLDER.get().ok_or(GlobalDefaultNotSet)' if ok else 'get_global_default returns %s' % [fmt(x) for x in rts])
         s = mac.bodies.get('cadence_macros::state::set_global_default')
         if s is not None:
